@@ -8,6 +8,7 @@ harness checks that the real flat AST is the dump of the tweaked tree, `c15.spec
 -/
 import Paroxy.Proofs.NodeFeature
 import Paroxy.Proofs.FlatEntries
+import Paroxy.Props.C15
 namespace Paroxy.Props.C01
 open Paroxy.Flat
 
@@ -52,6 +53,22 @@ theorem C01_node_labels (t0 t : Val) (hwf : treeOk t = true) :
       | some n => simpa [List.filterMap_cons, Entry.posStart, positionedOfEntries, parsePos_posText] using ih
     | list q n => simpa [List.filterMap_cons, Entry.posStart, positionedOfEntries] using ih
     | scalar r => simpa [List.filterMap_cons, Entry.posStart, positionedOfEntries] using ih
+
+/-- **C01 (node labels, on the real pipeline).** For a tree `t` as exported from `ast.parse`, whose
+on-the-fly form satisfies the local clauses of the six post-processing passes (`wfStages6`) and whose
+tweaked form `stage6` is well formed for the `node` feature (`treeOk`) — both Bool-valued and evaluated on
+every real tree —, searching the `node` pattern in **what `flatten_ast` returns** and keeping the positioned
+types gives, in pre-order, exactly one occurrence per node of the tweaked tree that carries a line number,
+with its type and its own line. -/
+theorem C01_node_labels_pipeline (cfg : Cfg) (s : HashState) (t : Val) (ty : Str) (e : Bool) (r : Str)
+    (ln : Option Nat) (fs : List (Str × Val)) (ht : onTheFly cfg t = .node ty e r ln fs)
+    (hwf : wfStages6 (onTheFly cfg t) = true) (hok : treeOk (stage6 (onTheFly cfg t)) = true) :
+    ((nodeStarts (flattenAst cfg s t).1).filter
+        (fun x => (posTypes (stage6 (onTheFly cfg t))).contains x.1)).map
+        (fun x => (x.1, (parsePos? x.2).map (·.1))) =
+      (positionedNodes (stage6 (onTheFly cfg t))).map (fun x => (x.1, some x.2)) := by
+  rw [Paroxy.Props.C15.C15_flatten_tweaked cfg s t ty e r ln fs ht hwf]
+  exact C01_node_labels (onTheFly cfg t) (stage6 (onTheFly cfg t)) hok
 
 /-- Non-vacuity: a small module `x = 1` (already tweaked) is well formed, and the theorem's right-hand
 side lists its three positioned nodes. -/
